@@ -576,8 +576,11 @@ package iavl
 //@   assumed persistence boundary: the root recorded for a version decodes to the committed tree dbtree(version)
 //@   requires tree != nil && tree.ndb != nil
 //@   ensures err == nil ==> t != nil && fresh(t) && t.version == version && tview(t.root) == dbtree(version) && (t.root != nil ==> valid(t.root)) && t.ndb == tree.ndb
+//@   ensures err == nil ==> t.skipFastStorageUpgrade == tree.skipFastStorageUpgrade && siz(dbtree(version)) <= 144115188075855872
+//@   ensures immfail == (err != nil)
+//@   ensures tree.ndb == old(tree.ndb) && tree.ndb.db == old(tree.ndb.db) && tree.ndb.latestVersion == old(tree.ndb.latestVersion) && tree.ndb.firstVersion == old(tree.ndb.firstVersion)
 //@   ensures nframe(old(heap(N)), heap(N), old(na))
-//@   modifies nodeDB.*[*], Statistics.*[*]
+//@   modifies nodeDB.*[*], Statistics.*[*], immfail
 //@   allocates ImmutableTree Node NodeKey BM
 
 //@ func (*ImmutableTree).GetProof(t, key) (proof, err)
@@ -631,15 +634,17 @@ package iavl
 //@   requires ndb != nil
 //@   ensures err == nil && res == nil ==> !fihas[ndb][ord(key)]
 //@   ensures err == nil && res != nil ==> fihas[ndb][ord(key)] && res.versionLastUpdatedAt == fiver[ndb][ord(key)] && res.value != nil && cntOf(res.value) == fival[ndb][ord(key)]
+//@   ensures err != nil ==> res == nil
+//@   ensures fnfail == (err != nil)
 //@   ensures nframe(old(heap(N)), heap(N), old(na))
-//@   modifies nodeDB.mtx[*], Statistics.*[*]
+//@   modifies nodeDB.mtx[*], Statistics.*[*], fnfail
 //@   allocates fastnode.Node BM
 
 //@ func (*ImmutableTree).Get(t, key) (value, err)
 //@   props C07
 //@   requires t != nil && (t.root != nil ==> t.ndb != nil && valid(t.root) && siz(view(t.root)) <= 144115188075855872)
-//@   requires t.root != nil && fihas[t.ndb][ord(key)] && fiver[t.ndb][ord(key)] <= t.version ==> has(tview(t.root), ord(key)) && lookup(tview(t.root), ord(key)) == fival[t.ndb][ord(key)]
-//@   requires t.root != nil && t.version == t.ndb.latestVersion && !fihas[t.ndb][ord(key)] ==> !has(tview(t.root), ord(key))
+//@   requires t.root != nil && !t.skipFastStorageUpgrade && fihas[t.ndb][ord(key)] && fiver[t.ndb][ord(key)] <= t.version ==> has(tview(t.root), ord(key)) && lookup(tview(t.root), ord(key)) == fival[t.ndb][ord(key)]
+//@   requires t.root != nil && !t.skipFastStorageUpgrade && t.version == t.ndb.latestVersion && !fihas[t.ndb][ord(key)] ==> !has(tview(t.root), ord(key))
 //@   ensures [present] err == nil ==> (value != nil) == has(old(tview(t.root)), ord(key))
 //@   ensures [value] err == nil && value != nil ==> cntOf(value) == lookup(old(tview(t.root)), ord(key))
 //@   modifies nodeDB.*[*], Statistics.*[*]
@@ -860,4 +865,51 @@ package iavl
 //@   requires tree.ndb.legacyLatestVersion == 0 - 1 && tree.ndb.firstVersion > 0 && tree.ndb.latestVersion > 0
 //@   callsite enableFastStorageAndCommitIfNotEnabled@2 [overlay-reset] tree.unsavedFastNodeAdditions != nil && tree.unsavedFastNodeRemovals != nil && smhas[tree.unsavedFastNodeAdditions] == emptyKeys && smhas[tree.unsavedFastNodeRemovals] == emptyKeys
 //@   callsite enableFastStorageAndCommitIfNotEnabled@2 [tree-replaced] tree.ImmutableTree != nil && tree.ImmutableTree.version == targetVersion && tree.lastSaved != nil && tree.lastSaved != tree.ImmutableTree
+//@   modifies *
+
+// ---------------------------------------------------------------- mutable_tree.go: reads of the working state through the uncommitted overlay (C01/C07)
+//
+// The overlay is coherent with the working tree when (for the key asked) an
+// uncommitted addition carries the working tree's value and an uncommitted
+// removal names a key the working tree does not have; for keys in neither set
+// the persisted index facts of ImmutableTree.Get apply.  Under these facts Get
+// answers exactly what the tree walk answers.
+//@ func (*MutableTree).Get(tree, key) (value, err)
+//@   props C01 C07
+//@   requires tree != nil && tree.ImmutableTree != nil
+//@   requires tree.ImmutableTree.root != nil ==> tree.ImmutableTree.ndb != nil && valid(tree.ImmutableTree.root) && siz(view(tree.ImmutableTree.root)) <= 144115188075855872
+//@   requires !tree.skipFastStorageUpgrade ==> tree.unsavedFastNodeAdditions != nil && tree.unsavedFastNodeRemovals != nil
+//@   requires tree.skipFastStorageUpgrade == tree.ImmutableTree.skipFastStorageUpgrade
+//@   let root = tree.ImmutableTree.root
+//@   let adds = tree.unsavedFastNodeAdditions
+//@   let rems = tree.unsavedFastNodeRemovals
+//@   let ndb = tree.ImmutableTree.ndb
+//@   requires [adds-coherent] root != nil && smhas[adds][ord(key)] ==> typeis(smval[adds][ord(key)], "*github.com/cosmos/iavl/fastnode.Node") && smval[adds][ord(key)] != nil && ptr(smval[adds][ord(key)], "fastnode.Node").value != nil && has(tview(root), ord(key)) && cntOf(ptr(smval[adds][ord(key)], "fastnode.Node").value) == lookup(tview(root), ord(key))
+//@   requires [rems-coherent] root != nil && smhas[rems][ord(key)] && !smhas[adds][ord(key)] ==> !has(tview(root), ord(key))
+//@   requires [index-history] root != nil && !smhas[adds][ord(key)] && !smhas[rems][ord(key)] && fihas[ndb][ord(key)] && fiver[ndb][ord(key)] <= tree.ImmutableTree.version ==> has(tview(root), ord(key)) && lookup(tview(root), ord(key)) == fival[ndb][ord(key)]
+//@   requires [index-latest] root != nil && !smhas[adds][ord(key)] && !smhas[rems][ord(key)] && tree.ImmutableTree.version == ndb.latestVersion && !fihas[ndb][ord(key)] ==> !has(tview(root), ord(key))
+//@   ensures [present] err == nil ==> (value != nil) == has(old(tview(tree.ImmutableTree.root)), ord(key))
+//@   ensures [value] err == nil && value != nil ==> cntOf(value) == lookup(old(tview(tree.ImmutableTree.root)), ord(key))
+//@   modifies nodeDB.*[*], Statistics.*[*]
+
+//@ func (*ImmutableTree).IsFastCacheEnabled(t) (ok, err)
+//@   props C07
+//@   requires t != nil && t.ndb != nil && t.ndb.db != nil && t.ndb.latestVersion > 0
+//@   ensures [latest-only] err == nil && ok ==> t.version == old(t.ndb.latestVersion)
+//@   ensures [pure] t.ndb.latestVersion == old(t.ndb.latestVersion) && t.ndb.legacyLatestVersion == old(t.ndb.legacyLatestVersion) && t.ndb.firstVersion == old(t.ndb.firstVersion)
+//@   modifies t.ndb.latestVersion, t.ndb.legacyLatestVersion, nodeDB.mtx[*]
+
+// GetVersioned: a version outside the retained range reads as absent; inside
+// it the answer is the committed tree's (dbtree(version)), whether it comes
+// from the index shortcut or from loading the version — provided the two
+// boundary reads did not fail (their failures being swallowed is the C17 finding).
+//@ func (*MutableTree).GetVersioned(tree, key, version) (value, err)
+//@   props C07 C14
+//@   requires tree != nil && tree.ndb != nil && allocated(tree.ndb) && tree.ndb.db != nil && tree.ImmutableTree != nil && tree.ImmutableTree.ndb == tree.ndb
+//@   requires tree.ndb.legacyLatestVersion == 0 - 1 && tree.ndb.firstVersion > 0 && tree.ndb.latestVersion > 0 && version >= 0
+//@   requires [index-history] fihas[tree.ndb][ord(key)] && fiver[tree.ndb][ord(key)] <= version ==> has(dbtree(version), ord(key)) && lookup(dbtree(version), ord(key)) == fival[tree.ndb][ord(key)]
+//@   requires [index-latest] version == tree.ndb.latestVersion && !fihas[tree.ndb][ord(key)] ==> !has(dbtree(version), ord(key))
+//@   ensures [outside] !(old(tree.ndb.firstVersion) <= version && version <= old(tree.ndb.latestVersion)) ==> value == nil && err == nil
+//@   ensures [present] err == nil && !fnfail && !immfail && old(tree.ndb.firstVersion) <= version && version <= old(tree.ndb.latestVersion) ==> (value != nil) == has(dbtree(version), ord(key))
+//@   ensures [value] err == nil && !fnfail && !immfail && value != nil ==> cntOf(value) == lookup(dbtree(version), ord(key))
 //@   modifies *
